@@ -167,6 +167,12 @@ fn p_reg<H>(s: &mut String, idx: usize, r: &Reg<H>) {
     p_u64(s, idx as u64);
     s.push('=');
     s.push_str(kind);
+    // big-n cost runs: only the size is of interest (and the lines would be huge)
+    if std::env::var_os("PQH_NOSTATE").is_some() {
+        s.push_str(" m=[] h=[] q=[] s=");
+        p_u64(s, snap.2 as u64);
+        return;
+    }
     s.push_str(" m=[");
     let mut first = true;
     let mut elem = |s: &mut String, i: &It, p: &Pr| {
@@ -694,6 +700,7 @@ impl<H: BuildHasher + Default + Clone> Ex<H> {
             }
             let _ = catch_unwind(AssertUnwindSafe(|| self.do_op(toks, &mut out)));
             fuse_disarm();
+            clone_callbacks(false);
             self.out = out;
             return false;
         }
@@ -705,6 +712,7 @@ impl<H: BuildHasher + Default + Clone> Ex<H> {
         }
         let r = catch_unwind(AssertUnwindSafe(|| self.do_op(toks, &mut out)));
         fuse_disarm();
+        clone_callbacks(false);
         let t = cmps_get();
         let mut dead = false;
         let mut unwound = false;
@@ -1130,12 +1138,40 @@ impl<H: BuildHasher + Default + Clone> Ex<H> {
             }
             "clone" => {
                 let (s, d) = (num::<usize>(tok(t, 1)), num::<usize>(tok(t, 2)));
+                if !matches!(self.regs.get(s), Some(Reg::Pq(_)) | Some(Reg::Dpq(_))) {
+                    invalid!(out);
+                }
+                // I::clone / P::clone are user callbacks here (reset by the caller
+                // of do_op, also when the fuse unwinds out of the clone)
+                clone_callbacks(true);
                 let v = match self.regs.get(s) {
                     Some(Reg::Pq(q)) => Reg::Pq(q.clone()),
                     Some(Reg::Dpq(q)) => Reg::Dpq(q.clone()),
-                    _ => invalid!(out),
+                    _ => unreachable!(),
                 };
+                clone_callbacks(false);
                 self.set(d, v);
+                out.push_str("unit");
+            }
+            "clonefrom" => {
+                let (s, d) = (num::<usize>(tok(t, 1)), num::<usize>(tok(t, 2)));
+                if s == d || s >= self.regs.len() || d >= self.regs.len() {
+                    invalid!(out);
+                }
+                let (src, dst) = two_mut(&mut self.regs, s, d);
+                match (&*src, dst) {
+                    (Reg::Pq(a), Reg::Pq(b)) => {
+                        clone_callbacks(true);
+                        b.clone_from(a);
+                        clone_callbacks(false);
+                    }
+                    (Reg::Dpq(a), Reg::Dpq(b)) => {
+                        clone_callbacks(true);
+                        b.clone_from(a);
+                        clone_callbacks(false);
+                    }
+                    _ => invalid!(out),
+                }
                 out.push_str("unit");
             }
             "eq" => {
